@@ -1,5 +1,6 @@
 use crate::common::run::Run;
 pub mod c01;
+pub mod c02;
 pub mod c04;
 pub mod c05;
 pub mod c07;
@@ -20,6 +21,7 @@ pub mod c20;
 pub fn lookup(id: &str) -> Option<fn(&Run)> {
     Some(match id {
         "C01" => c01::run,
+        "C02" => c02::run,
         "C04" => c04::run,
         "C05" => c05::run,
         "C07" => c07::run,
